@@ -12,6 +12,7 @@ WITNESSES = {
     "C05": ["StaleBitIsUnforgeable"],
     "C04": ["ParentIsShared"],
     "C19": ["NodeMapIsPrivate"],
+    "C18": ["SlotMachineStateIsPrivate"],
 }
 
 
